@@ -116,6 +116,30 @@ def check_keys(case, acc):
         acc.viol('c14.%s.kcv' % kind, case, got_kcv, want_kcv, 'check value of the combined key')
 
 
+def check_poison(case, acc):
+    """calls whose inputs are NOT in the domain (2-digit PIN, 11-digit PAN, 3-character index, short key ...): whatever
+    they do (raise, return something), the valid PVV / key calls that follow in the same process must be unaffected.
+    The case itself only makes the calls; the following cases of the sequence are the oracle."""
+    from cardutil import pinblock, key as keymod
+    acc.case(('poison', case['n']), nontrivial=False, outcome='invalid calls made')
+    key = PVV_KEYS[case['n'] % len(PVV_KEYS)]
+    for args in (('12', key, 1, '4000001234562'), ('1234', key, 1, '40000012345'), ('1234', key, 123, '4000001234562'),
+                 ('1234', key, 1, ''), ('', key, 1, '4000001234562'), ('12345678', key, 'A', '4000001234562'),
+                 ('1234', key[:-2], 1, '4000001234562'), ('12a4', key, 1, '4000001234562')):
+        try:
+            pinblock.calculate_pvv(*args)
+        except Exception:
+            pass
+    for fn in (lambda: keymod.calculate_kcv(b'short'), lambda: keymod.get_zone_master_key('00', '11'),
+               lambda: keymod.get_zone_master_key(COMPONENTS[0], COMPONENTS[1][:-2]),
+               lambda: keymod.get_enc_zone_master_key('00' * 3, COMPONENTS[0]),
+               lambda: keymod.calculate_kcv(bytes.fromhex(COMPONENTS[0]), 0)):
+        try:
+            fn()
+        except Exception:
+            pass
+
+
 def check_pvv_reuse(case, acc):
     """ONE pin block object asked for several PVVs in a row (other card number for the format-4 block, which carries
     none; other key / key index for both): every answer is the Visa PVV of the inputs of THAT call"""
@@ -145,7 +169,9 @@ def check_pvv_reuse(case, acc):
 
 
 def replay_into(case, acc):
-    if case['kind'] == 'pvv_reuse':
+    if case['kind'] == 'poison':
+        check_poison(case, acc)
+    elif case['kind'] == 'pvv_reuse':
         check_pvv_reuse(case, acc)
     elif case['kind'] == 'pvv':
         check_pvv(case, acc)
@@ -223,6 +249,14 @@ def tasks(tier, seed):
     ts.append({'cases': cases})          # all key-management cases in one task, in enumeration order
     ts.append({'cases': seq})
     ts.append({'cases': list(reversed(seq))})
+    # the same sequences with calls on inputs outside the domain interleaved (every 7th position)
+    poisoned = []
+    for i, c in enumerate(seq):
+        if i % 7 == 0:
+            poisoned.append({'kind': 'poison', 'n': i // 7})
+        poisoned.append(c)
+    ts.append({'cases': poisoned})
+    ts.append({'cases': [{'kind': 'poison', 'n': 0}] + cases + [{'kind': 'poison', 'n': 1}] + pvv_cases[:400]})
     for k in range(0, 5):
         for ki in ((0, 1, 2) if tier == 'thorough' else (k % 3,)):
             ts.append({'vector': k, 'key': PVV_KEYS[ki], 'seed': seed})
